@@ -184,6 +184,16 @@ func w1GenProp(r *rand.Rand, c *simrt.Case, nclients, maxOps int, prop, tier str
 		cfg["partitions"] = 1
 		cfg["buf_max_bytes"] = pick[int64](r, 1, 300, 4<<20)
 		w1GenProduceHeavy(r, c, nclients, maxOps, prop)
+		if r.IntN(3) == 0 {
+			// a wide topic: steady traffic on partitions that are already open while sibling partitions of
+			// the same topic are being opened for the first time
+			cfg["partitions"] = 6
+			for cl := 0; cl < nclients; cl++ {
+				for i := 0; i < 3+r.IntN(4); i++ {
+					c.Program = append(c.Program, simrt.Op{Actor: cl, Kind: pick(r, "produce", "produce", "fetch"), B: int64(r.IntN(6)), C: int64(1 + r.IntN(3)), D: 1})
+				}
+			}
+		}
 		if r.IntN(2) == 0 {
 			c.Program = append(c.Program, simrt.Op{Actor: 100, Kind: "crash"})
 		}
